@@ -544,3 +544,43 @@ package sse
 //@   modifies e.chunks
 //@   ensures earlier_chunks_untouched: len(e.chunks) >= old(len(e.chunks)) && forall(k, 0, old(len(e.chunks)), e.chunks[k] == old(e.chunks[k]))
 //@   ensures appended_comments_single_line: forall(k, old(len(e.chunks)), len(e.chunks), singleLine(e.chunks[k].content) && e.chunks[k].isComment)
+
+// ---------------------------------------------------------------------------------------------------------
+// session.go / server.go: the HTTP side (C16). The response writer is an abstract callee (ghost call trace).
+// ---------------------------------------------------------------------------------------------------------
+
+//@ func @Header
+//@   ensures header_map_exists: result != nil
+
+//@ pure upgradecalls(s, a) = iscall(a, "Header") && crecv(a) == s.Res && iscall(a+1, "Flush") && crecv(a+1) == s.Res &&
+//@     has(cret(a, "Header", 0), "Content-Type") && len(cret(a, "Header", 0)["Content-Type"]) == 1 && cret(a, "Header", 0)["Content-Type"][0] == "text/event-stream"
+
+//@ func Session.doUpgrade
+//@   requires s != nil
+//@   assume content_type_value: len(headerContentTypeValue) == 1 && headerContentTypeValue[0] == "text/event-stream"
+//@   modifies s.didUpgrade, mapcell(cret(old(ncalls()), "Header", 0))
+//@   ensures already_upgraded_does_nothing: old(s.didUpgrade) ==> ncalls() == old(ncalls()) && result == nil && s.didUpgrade
+//@   ensures sets_header_then_flushes_once: !old(s.didUpgrade) ==> ncalls() == old(ncalls()) + 2 && upgradecalls(s, old(ncalls()))
+//@   ensures flush_error_returned: !old(s.didUpgrade) ==> result == cret(old(ncalls()) + 1, "Flush", 0)
+//@   ensures upgraded_iff_flushed: !old(s.didUpgrade) ==> s.didUpgrade == (result == nil)
+
+//@ func Session.Send
+//@   requires s != nil && e != nil
+//@   assume content_type_value: len(headerContentTypeValue) == 1 && headerContentTypeValue[0] == "text/event-stream"
+//@   modifies s.didUpgrade, mapcell(cret(old(ncalls()), "Header", 0))
+//@   ensures upgrades_first: !old(s.didUpgrade) ==> ncalls() >= old(ncalls()) + 2 && upgradecalls(s, old(ncalls()))
+//@   ensures failed_upgrade_writes_nothing: !old(s.didUpgrade) && cret(old(ncalls()) + 1, "Flush", 0) != nil ==> ncalls() == old(ncalls()) + 2 && result == cret(old(ncalls()) + 1, "Flush", 0) && !s.didUpgrade
+//@   ensures only_body_writes_after_upgrade: let(b, old(ncalls()) + ite(old(s.didUpgrade), 0, 2), onlywrites(s.Res, b, ncalls()) && noerrors(b, ncalls()-1))
+//@   ensures body_is_the_encoding: let(b, old(ncalls()) + ite(old(s.didUpgrade), 0, 2), result == nil && total(e) > 0 ==> ncalls() == b + total(e) + 1)
+//@   ensures first_error_returned: let(b, old(ncalls()) + ite(old(s.didUpgrade), 0, 2), ncalls() > b ==> result == cret(ncalls()-1, "Write", 1))
+//@   ensures stays_upgraded: old(s.didUpgrade) ==> s.didUpgrade
+//@   ensures success_means_upgraded: result == nil ==> s.didUpgrade
+
+//@ func Session.Flush
+//@   requires s != nil
+//@   assume content_type_value: len(headerContentTypeValue) == 1 && headerContentTypeValue[0] == "text/event-stream"
+//@   modifies s.didUpgrade, mapcell(cret(old(ncalls()), "Header", 0))
+//@   ensures upgrade_flush_is_the_flush: !old(s.didUpgrade) ==> ncalls() == old(ncalls()) + 2 && upgradecalls(s, old(ncalls())) && result == cret(old(ncalls()) + 1, "Flush", 0)
+//@   ensures flushes_exactly_once: old(s.didUpgrade) ==> ncalls() == old(ncalls()) + 1 && iscall(old(ncalls()), "Flush") && crecv(old(ncalls())) == s.Res && result == cret(old(ncalls()), "Flush", 0)
+//@   ensures stays_upgraded: old(s.didUpgrade) ==> s.didUpgrade
+//@   ensures upgraded_iff_flushed: !old(s.didUpgrade) ==> s.didUpgrade == (result == nil)
